@@ -553,7 +553,7 @@ func buildCamp(t *vk.T, name string, n int) *camp {
 		c.cheap = false
 		cm := fx.NewCMPMatDealt(ids, th)
 		key := cm.Shares()[0].GroupKey
-		msg := r.Bytes(32)
+		msg := r.Bytes([]int{32, 32, 64, 48}[r.Intn(4)])
 		switch name {
 		case "cmp-refresh":
 			c.mk = all(func(id party.ID) protocol.StartFunc { return cmp.Refresh(fx.CloneCMP(cm.Cfgs[id]), pl) })
